@@ -101,7 +101,10 @@ def w_enum(exe, modes, tokens, k, prefix_idx, opts, prop, sample_every=0):
     return part
 
 
-def w_list(exe, modes, strings, opts, prop, src, with_email=False):
+SUBRANGE_SUFFIXES = [b".", b"..", b'"', b"a", b"\\", b" ", b"\n ", b"\xa9", b"\x80\x80\x80", b"@x", b"\xc3"]
+
+
+def w_list(exe, modes, strings, opts, prop, src, with_email=False, subrange=False):
     """Worker: explicit strings through the L op (all four validators at once)."""
     part = new_part()
     opts = frozenset(opts)
@@ -117,6 +120,29 @@ def w_list(exe, modes, strings, opts, prop, src, with_email=False):
         for mode in modes:
             judge(mode, b, rec[MODE_IDX[mode]], opts, part, src)
             part["sets"].setdefault("transitions." + mode, set()).update(trace_transitions(mode, b, opts))
+    if subrange:
+        # the validators take (start, end): the verdict must depend on [start, end) only, whatever bytes follow `end`
+        # (through eav_is_email the byte at `end` is '@'; a direct caller may have anything there)
+        sel = [b for b in strings if 0 < len(b) < 4096]
+        for suf in SUBRANGE_SUFFIXES:
+            lines = ["X %s %s" % (driver.hx(b), suf.hex()) for b in sel]
+            recs2, crashes = driver.run_lines_resilient(exe, lines)
+            for idx, sig, err in crashes:
+                b = sel[idx] if idx >= 0 else b""
+                part["viol"].append(("subrange/crash/%s" % sig, {"local_part": core.b2s(b), "hex": b.hex(), "bytes_after_end": core.b2s(suf)},
+                                     {"stderr": err[-1500:], "source": src}))
+            base = {b: r for b, r in zip(strings, recs)}
+            for b, r2 in zip(sel, recs2):
+                r1 = base.get(b)
+                if r1 is None or r2 is None:
+                    continue
+                for mode in modes:
+                    i = MODE_IDX[mode]
+                    part["counters"]["subrange.compared"] += 1
+                    if (r1[i] == 0) != (r2[i] == 0):
+                        part["viol"].append(("%s/subrange/decision-depends-on-bytes-after-end" % mode,
+                                             {"mode": mode, "local_part": core.b2s(b), "hex": b.hex(), "bytes_after_end": core.b2s(suf)},
+                                             {"rc_nul_terminated": r1[i], "rc_subrange": r2[i], "source": src}))
     if with_email:
         # the high-level call on L@a.bc must reach the same decision (tld off), for |L| <= 64
         lines = [driver.A_line(b + b"@a.bc", sections=1, modes=sum(1 << MODE_IDX[m] for m in modes), tlds=1)
